@@ -1,15 +1,15 @@
 SPECIFICATION MCSpec
 CONSTANTS
   Nil = Nil
-  Locked = FALSE
-  CheckUnderLock = TRUE
-  MaxCallsR1 = 2
-  MaxCallsR2 = 2
+  Locked = TRUE
+  CheckUnderLock = FALSE
+  MaxCallsR1 = 0
+  MaxCallsR2 = 0
   KindsR1 = {"lookup", "current"}
   KindsR2 = {"lookup", "current"}
   MaxAppends = 1
-  NUpdaters = 1
+  NUpdaters = 2
   VaaNames = {}
 INVARIANTS
-  NoTornRead
+  ListIsChainPrefix
 CHECK_DEADLOCK FALSE
